@@ -126,7 +126,9 @@ func c13RandL(g *Rng) int {
 }
 
 func c13Generate(c *c13) {
-	g := c.r.Rng
+	// Fork: hlib seeds splitmix64 with seed*golden, so the raw streams of seeds k and k+1 are the same
+	// stream shifted by one draw (and re-synchronise); forking decorrelates the seeds.
+	g := c.r.Rng.Fork()
 	traces := c.r.N(70, 1200)
 	sweeps := c.r.N(1500, 60000)
 	per := sweeps / traces
